@@ -139,7 +139,7 @@ func c09Cases(c runCfg) ([]*scratch.Pkg, []string, map[string]interface{}) {
 			np := 1 + rng.Intn(5)
 			for k := 0; k < np; k++ {
 				in := []string{"query", "query", "header"}[rng.Intn(3)]
-				name := fmt.Sprintf("q%d%s", k, []string{"", "-x", "_y", "Id", ".z", "_user_id", "URL"}[rng.Intn(7)])
+				name := fmt.Sprintf("q%d%s", k, []string{"", "-x", "_y", "Id", ".z", "_user_id", "URL", "[size]", "$f", "[]", " b"}[rng.Intn(11)])
 				sc := paramSchemas[rng.Intn(len(paramSchemas))]()
 				if rng.Intn(5) == 0 {
 					sc.Nullable = true
